@@ -29,6 +29,9 @@ class SignalMonitor(Monitor):
             if not already and ms["handled_when"] is None:
                 ms["handled_when"] = tr.pre.stages[self.stage]["status"]
         for e in tr.ledger:
+            if e["stage"] == self.stage and e["task"] != self.task and ms["resumes"] == 0:
+                v.append({"kind": "task-behind-the-gate-ran-before-any-signal", "task": e["task"], "handling": tr.action,
+                          "sig": "ran-past-gate"})
             if e["stage"] == self.stage and e["task"] == self.task:
                 if e["step"] == "suspend":
                     ms["suspends"] += 1
@@ -131,6 +134,13 @@ def jobs(tier, seed):
                    "budget": {"signal": 1}, "kind": "e1"})
         js.append({"label": f"gate|{tag}|signal-anywhere,noack1", "wl": wl("suspend_gate"), "persistent": p,
                    "budget": {"signal": 1, "noack": 1}, "kind": "e1"})
+    # a second task behind the gate and a recovery sweep at any moment; a gate reached by a forward jump
+    for p in (True, False):
+        tag = "persistent" if p else "transient"
+        js.append({"label": f"gate_multi|{tag}|signal-anywhere,sweep1", "wl": wl("suspend_gate_multi"), "persistent": p,
+                   "budget": {"signal": 1, "sweep": 1}, "kind": "e1"})
+    js.append({"label": "jump_forward_gate|persistent|signal-anywhere", "wl": wl("jump_forward_gate"), "persistent": True,
+               "budget": {"signal": 1}, "kind": "e1"})
     js.append({"label": "gate2|2 persistent signals|signals-anywhere", "wl": wl("suspend_gate_n", 2), "multi": 2,
                "persistent": True, "budget": {"signal": 2}, "kind": "e1"})
     js.append({"label": "gate2|2 persistent signals|signals-anywhere,noack1", "wl": wl("suspend_gate_n", 2), "multi": 2,
